@@ -76,7 +76,7 @@ def getDq (s : State) (sc : Scope) (cmd : String) : Deque :=
 def setDq (s : State) (sc : Scope) (cmd : String) (dq : Deque) : State :=
   { dqs := ((sc, cmd), dq) :: s.dqs.filter (fun e => e.1 ≠ (sc, cmd)) }
 
-/-- `"." in key` -/
+/-- `"." in key`: how the pinned code recognised a specific-address rule (kept for the counter-witness) -/
 def hasDot (s : String) : Bool := s.toList.contains '.'
 
 /-- the three visits of `is_limited`: `for key in (client_address, "global", "ip")`.
@@ -92,8 +92,9 @@ def isLimited (cfg : Config) (s : State) (addr cmd : String) (now : Int) : Optio
           | none => none
           | some (true, dq) => some (some true, setDq s (.ip addr) cmd dq)
           | some (false, dq) =>
-            let s' := setDq s (.ip addr) cmd dq
-            if hasDot addr then some (some false, s') else some (none, s'))
+            -- `if key not in ("global", "ip"): return False` — the specific rule takes precedence,
+            -- whatever the address looks like (IPv4 or IPv6)
+            some (some false, setDq s (.ip addr) cmd dq))
        | none => some (none, s))
     | none => some (none, s)
   match v1 with
